@@ -490,7 +490,7 @@ func (d *dataWorld) opSelect(tp *simkit.Tape, stats map[string]int) {
 	rule := d.rule
 	cond := d.condition(tp, 3)
 	t := rule.table
-	pickAhead := tp.Choose(21)
+	pickAhead := tp.Choose(23)
 	if pickAhead >= 13 {
 		cond = d.qualified(tp, 2) // every column carries its table: the statement names two tables with the same columns
 	}
@@ -558,6 +558,15 @@ func (d *dataWorld) opSelect(tp *simkit.Tape, stats map[string]int) {
 			shape = "group-by-order-by-aggregate-limit"
 			sql += fmt.Sprintf(" limit %d", tp.Range(1, 2))
 		}
+	case 22:
+		// a wildcard in front of an aggregate: the aggregate's position in the result is not its position in the text
+		shape = "star-before-aggregate"
+		sql = fmt.Sprintf("select *, count(*) from %s where %s group by id, g, v, name, ct", t, cond)
+	case 21:
+		// groups ordered by the alias of a selected SUM (a DECIMAL in MySQL)
+		shape = "group-by-order-by-sum-alias"
+		sql = fmt.Sprintf("select sum(v) as s, g from %s where %s and v is not null group by g order by s, g", t, cond)
+		ordered, desc = 2, []bool{false, false}
 	case 15:
 		// the ORDER BY column carries its table (or database and table): the field the proxy adds for merging must be written for each sub-table
 		shape = "order-by-qualified-column"
@@ -810,6 +819,22 @@ func (d *dataWorld) opModify(tp *simkit.Tape, stats map[string]int) {
 		}
 	default:
 		kind, sql = "delete", fmt.Sprintf("delete from %s where %s", t, cond)
+	}
+	if !mustReject && tp.Chance(1, 3) {
+		// the forms the property lists: schema qualification, a table alias, ORDER BY without LIMIT
+		switch tp.Choose(3) {
+		case 0:
+			sql = strings.Replace(sql, " "+t+" ", " "+rule.db+"."+t+" ", 1)
+			stats["modify-schema-qualified"]++
+		case 1:
+			if kind == "update" {
+				sql = strings.Replace(sql, " "+t+" set ", " "+t+" as ua set ", 1)
+				stats["modify-through-alias"]++
+			}
+		default:
+			sql += " order by id"
+			stats["modify-with-order-by"]++
+		}
 	}
 	hold, herr := d.holders(cond)
 	if herr != nil {
